@@ -122,6 +122,15 @@ def run(res, tier, br, model_ok=True, search=False):
         ("hand7.c", "#include <unistd.h>\n#ifdef WIDE\nlong\tft_first(long n)\n#else\nint\tft_first(int n)\n#endif\n{\n\treturn (n);\n}\n" + five + "\nint\tf6(void)\n{\n\treturn (6);\n}\n"),
         ("hand8.h", "#ifndef HAND8_H\n# define HAND8_H\n\n# ifdef WIDE\ntypedef long\tt_n;\n# else\ntypedef int\tt_n;\n# endif\n\nt_n\tf1(t_n a);\n\n#endif\n"),
     ]
+    # top-level definitions of every shape (the ones of C03.FUNC_SHAPES, types with the brace on the keyword line or
+    # below it, initialised arrays, prototypes on two lines), so that every kind of neighbour gets a comment line next to it
+    from props.C03 import FUNC_SHAPES
+    shapes9 = ["struct s_pair {\n\tint\ta;\n\tint\tb;\n};\n", "int\tg_n = 3;\n", "enum e_k {\n\tAA,\n\tBB\n};\n", "union u_v\n{\n\tint\ti;\n\tchar\tc;\n};\n",
+               "int\tg_tab[2][2] = {{1, 2}, {3, 4}};\n", "static long\tproto(int a,\n\t\t\tint b);\n", "typedef struct s_q\n{\n\tint\tx;\n}\tt_q;\n"]
+    for v in range(3 if big else 2):
+        parts = [sh.replace("@", f"f{i}") for i, (_, sh) in enumerate(rng.sample(FUNC_SHAPES, 4))] + rng.sample(shapes9, 3)
+        rng.shuffle(parts)
+        hand.append((f"hand9_{v}.c", "\n".join(parts)))
     nhand = len(hand)
     hand += [(n, s_) for n, s_ in (families.repo_samples() if big else families.repo_samples()[::3])
              if not s_.startswith("/* ****") and not s_.startswith("\n") and s_.strip()]
@@ -143,6 +152,29 @@ def run(res, tier, br, model_ok=True, search=False):
         if o0 == "ok" and (o1 != "ok" or d1 != want):
             res.report("header:shift", f"{name}: with header+blank line: unexpected {[x for x in d1 if x not in want][:3]}, missing {[x for x in want if x not in d1][:3]}",
                        {"kind": "header12", "name": name, "src": src})
+        # a comment line at every top-level insertion point (brace depth 0, not inside a statement that continues)
+        if o0 == "ok":
+            ls = src.split("\n")
+            depth, points = 0, []
+            # "between two top-level definitions": below the first definition (the comments a file starts with are
+            # where a header is looked for)
+            first_def = next((i for i, l in enumerate(ls) if l.strip() and not l.lstrip().startswith(("/*", "**", "*/", "//"))), len(ls))
+            for i, l in enumerate(ls):
+                if depth == 0 and i > first_def and ls[i - 1].rstrip().endswith((";", "}", "*/")) and not l.startswith(("{", "#else", "#endif", "#elif")):
+                    points.append(i)
+                depth += l.count("{") - l.count("}")
+            for at0 in (points if big else rng.sample(points, min(len(points), 5))):
+                at = at0 + 1
+                cm = rng.choice(["/* note */", "// a remark", "/* {;} */"])
+                new2 = "\n".join(ls[:at0] + [cm] + ls[at0:])
+                o3, d3, _ = meta.diags(name, new2)
+                res.count("comment-line", 1)
+                want3 = sorted((lv, c, l + (1 if l >= at else 0), col) for lv, c, l, col in d0)
+                extra3 = [x for x in d3 if x not in want3]
+                missing3 = [x for x in want3 if x not in d3]
+                if o3 != "ok" or extra3 or missing3:
+                    res.report("comment-line:shift", f"{name}: comment line inserted above line {at}: outcome {o3}, unexpected {extra3[:3]}, missing {missing3[:3]}",
+                               {"kind": "comment-line", "name": name, "src": src, "at": at, "comment": cm})
         fn = "\nint\tzz_extra(int a)\n{\n\treturn (a);\n}\n"
         if (("\n" + src).count("\n{\n") >= 5 or name.endswith(".h") or not src.endswith("}\n")
                 or any(x[1] == "TOO_MANY_FUNCS" for x in d0)):
@@ -165,10 +197,12 @@ def replay(rp):
         return 0 if (b[0] == a[0] == "ok" and b[1] == want) else 1
     if k == "comment-line":
         lines = rp["src"].split("\n"); at = rp["at"]
-        new = "\n".join(lines[:at - 1] + ["/* note */"] + lines[at - 1:])
+        new = "\n".join(lines[:at - 1] + [rp.get("comment", "/* note */")] + lines[at - 1:])
         a = meta.diags(rp["name"], rp["src"]); b = meta.diags(rp["name"], new)
         want = sorted((lv, c, l + (1 if l >= at else 0), col) for lv, c, l, col in a[1])
         print("before:", a[1]); print("after :", b[1])
+        if rp.get("comment"):
+            return 0 if b[1] == want else 1
         return 0 if b[1] == want else 1
     if k == "append":
         a = meta.diags(rp["name"], rp["src"]); b = meta.diags(rp["name"], rp["src"] + rp["appended"])
